@@ -5,6 +5,7 @@ Line-protocol driver over Model + Spec.  One op per line, tab separated:
 -/
 import Driver.Proto
 import Driver.ValCodec
+import Driver.TPCodec
 import TableauVerif.Model.Patch
 import TableauVerif.Spec.C13
 import TableauVerif.Model.FieldProp
@@ -281,9 +282,11 @@ def dispatch (line : String) : String :=
       else if fn.startsWith "c07." || fn.startsWith "o.c07." then c07 fn args
       else if fn.startsWith "c03." || fn.startsWith "o.c03." then c03 fn args
       else if fn.startsWith "c13." || fn.startsWith "o.c13." then c13 fn args
+      else if fn.startsWith "c12.contig" || fn.startsWith "o.c12.contig" then tp fn args
       else if fn.startsWith "c12." || fn.startsWith "o.c12." then c12 fn args
       else if fn.startsWith "c20." || fn.startsWith "o.c20." then c20 fn args
       else if fn.startsWith "c05." || fn.startsWith "o.c05." then c05 fn args
+      else if fn.startsWith "tp." || fn.startsWith "o.tp." || fn.startsWith "c01." || fn.startsWith "o.c01." || fn.startsWith "w.c01." then tp fn args
       else none
     r.getD "bad-op"
 
